@@ -90,7 +90,12 @@ def opFrame : RM Res := do
       let maps := fun (p q : V3 Float) => (iso.transformPoint p).sub q |>.norm
       let worst := max (maps p1 q1) (max (maps p2 q2) (maps p3 q3))
       preds := preds ++ [P "C17.maps_points" (worst ≤ tolP, s!"worst image error {worst} (tolerance {tolP}, sine {sine})")]
-      preds := preds ++ [P "C17.equals_motion" (closeQuat (1e-9 / (max sine 1e-12)) iso.q gi.q, s!"frame {showIso iso} motion {showIso gi}")]
+      -- the rotation is determined by edge DIRECTIONS: coordinates of magnitude M carry a rounding error of about
+      -- eps*M, an edge of length L then has a direction error of eps*M/L (tiny triangles far from the origin)
+      let coordMax := [p1, p2, p3, q1, q2, q3].foldl (fun m (v : V3 Float) => max m (max v.x.abs (max v.y.abs v.z.abs))) 1.0
+      let edgeMin := min (min v1.norm v2.norm) (min ((q2.sub q1).norm) ((q3.sub q1).norm))
+      let tolQ := (1e-9 + 16.0 * 2.220446049250313e-16 * coordMax / (max edgeMin 1e-300)) / (max sine 1e-12)
+      preds := preds ++ [P "C17.equals_motion" (closeQuat tolQ iso.q gi.q, s!"frame {showIso iso} motion {showIso gi} (tolerance {tolQ})")]
     | none => pure ()
     pure (mkRes ok s!"Frame::frame impl {showIso iso} model {match model with | .ok mi => showIso mi | .error e => errName (errCode e)}" preds ["ok"])
 
